@@ -631,7 +631,9 @@ def run_property(prop, tier, seed, replay=None):
                        'broken': {'kind': b['kind'], 'name': b['name'], 'detail': str(b['detail'])[-3000:]},
                        'all_broken': [{'kind': x['kind'], 'name': x['name']} for x in broken],
                        'searched_cases': searched}
-            if b.get('case') is not None:
+            bc = [x for x in broken if x.get('case') is not None]
+            if bc:
+                b = bc[0]
                 payload['disagreement'] = {'case': b['case'].to_json(), 'impl': codec.tree_sx(b['impl']),
                                            'model': codec.tree_sx(b['model']) if b['model'][0] != '!runner-error'
                                            else str(b['model']),
